@@ -97,7 +97,7 @@ func Glob(pattern string) ([]string, error) {
 					} else {
 						p += name
 					}
-					if _, err := os.Lstat(p); err == nil {
+					if exists(p, sep) {
 						matches = append(matches, p+sep)
 					}
 				}
@@ -112,7 +112,9 @@ func Glob(pattern string) ([]string, error) {
 						if p != "." {
 							name = p + name
 						}
-						matches = append(matches, name+sep)
+						if exists(name, sep) {
+							matches = append(matches, name+sep)
+						}
 					})
 					if err != nil {
 						return nil, err
@@ -134,6 +136,17 @@ func Glob(pattern string) ([]string, error) {
 		pattern = pattern[i+w:]
 	}
 	return paths, nil
+}
+
+// exists reports whether the path exists. It must be a directory when
+// it is followed by a separator.
+func exists(path, sep string) bool {
+	if sep != "" {
+		fi, err := os.Stat(path)
+		return err == nil && fi.IsDir()
+	}
+	_, err := os.Lstat(path)
+	return err == nil
 }
 
 func glob(path string, rx *regexp.Regexp, fn func(string)) error {
